@@ -28,11 +28,11 @@ def explore(tier):
     stats.append(res.stats)
     if tier != "quick":
         # every operation from every state one operation away from the default state: TLC checks the action
-        # properties on all 2.6 million edges; one in six (by checksum) is replayed into the real messages
+        # properties on all 2.6 million edges; one in twelve (by checksum) is replayed into the real messages
         import zlib
 
         def collect_sampled(tag, body):
-            if zlib.crc32(body.encode()) % 6 == 0:
+            if zlib.crc32(body.encode()) % 12 == 0:
                 collect(tag, body)
         res = run_tlc("Msg", {"ExhaustiveLevels": 1, "MaxLevel": 1}, invariants=["AlwaysValid"], properties=MSG_PROPS,
                       spec="MSpec", prefix=("MTR",), constraint="LevelBound", env={"GIVEN_FILE": path},
@@ -117,7 +117,7 @@ def _run(pid, tier):
         es = edges[gid]
         if not es:
             raise MachineryError("TLC produced no transitions for schema %d" % gid)
-        parts = max(1, min(6, len(es) // 4000))
+        parts = max(1, min(4, len(es) // 4000))
         for k in range(parts):
             jobs.append((gid, defs, es, n_walks if k == 0 else 0, walk_len, seed() * 100 + gid,
                          {"scratch": scratch_dir("msg"), "replay": (k, parts)}))
